@@ -210,6 +210,9 @@ pub fn trees(d: usize, leaves: &[TypeStructure]) -> Vec<TypeStructure> {
             }
         }
         next.push(TypeStructure::Tuple(vec![]));
+        // other arities: the one-element tuple `(T,)` (serde writes `[t]`) and a triple
+        for a in &sample { next.push(TypeStructure::Tuple(vec![(*a).clone()])); }
+        if let (Some(a), Some(b)) = (sample.first(), sample.last()) { next.push(TypeStructure::Tuple(vec![(*a).clone(), (*b).clone(), (*a).clone()])); }
         cur = next;
     }
     cur
